@@ -160,7 +160,8 @@ def _gen_cvx(rng, a, nx, xstar):
         k = -base - slack if curv == 1 else -base + slack
         g_out, k_out = G.tolist(), np.round(k, 6).tolist()
     return {'atom': a, 'params': params, 'M': M.tolist(), 'v': v.tolist(), 'mult': mult,
-            'g': g_out, 'k': k_out, 'spell': int(rng.integers(6))}
+            'g': g_out, 'k': k_out, 'spell': int(rng.integers(6)),
+            'mult_inside': bool(a in ('expsum', 'logsum') and rng.random() < 0.5)}
 
 
 def _gen_special(rng, nx, xstar, cones):
@@ -473,7 +474,12 @@ def build(spec, variant=None):
     if o.get('cvx'):
         c = o['cvx']
         at = AT.build(c['atom'], rso, mat(c['M'], c['v']), c['params'])
-        e = (c['mult'] * at + e) if rng.random() < 0.5 else (e + at * c['mult'])
+        if c['atom'] in ('expsum', 'logsum') and rng.random() < 0.5:
+            inner = rso.exp(mat(c['M'], c['v'])) if c['atom'] == 'expsum' else \
+                rso.log(mat(c['M'], c['v']))
+            e = (c['mult'] * inner).sum() + e
+        else:
+            e = (c['mult'] * at + e) if rng.random() < 0.5 else (e + at * c['mult'])
     if o.get('pieces'):
         pcs = [lin(p['c'], p['k']) for p in o['pieces']]
         pw = rso.maxof(*pcs) if o['sense'] == 'min' else rso.minof(*pcs)
@@ -491,13 +497,19 @@ def cvx_constraint(rso, B, c, rng=None):
     equivalent spellings."""
     info = AT.ATOMS[c['atom']]
     at = AT.build(c['atom'], rso, B.mat(c['M'], c['v']), c['params'])
+    mult = c['mult']
+    if c.get('mult_inside'):
+        # (mult*exp(u)).sum() instead of mult*exp(u).sum()
+        inner = rso.exp(B.mat(c['M'], c['v'])) if c['atom'] == 'expsum' else \
+            rso.log(B.mat(c['M'], c['v']))
+        at = (mult * inner).sum()
+        mult = 1.0
     g = np.array(c['g'], float)
     if g.ndim == 1:
         rest = B.lin(g, c['k'])
     else:
         rest = B.mat(g, c['k'])
     sp = c.get('spell', 0)
-    mult = c['mult']
     if info['curv'] == 1:
         if sp == 0:
             return mult * at + rest <= 0
@@ -671,7 +683,8 @@ def improve_search(spec, x, rng, tries=150):
 
 # ------------------------------------------------------------------ LP generator with all bound patterns
 
-PATTERNS = ['free', 'ge0', 'le0', 'lower', 'upper', 'both', 'fixed0', 'fixed']
+PATTERNS = ['free', 'ge0', 'le0', 'lower', 'upper', 'both', 'fixed0', 'fixed', 'le0_lower',
+            'ge0_upper']
 
 
 def gen_lp(rng, tier='quick', ints=False, outcome='optimal', patterns=None, front=None):
@@ -726,6 +739,14 @@ def gen_lp(rng, tier='quick', ints=False, outcome='optimal', patterns=None, fron
             hi = float(np.round(xstar[i] + rng.uniform(0, 1.5), 2))
         elif pat == 'both':
             lo = float(np.round(xstar[i] - rng.uniform(0, 1.5), 2))
+            hi = float(np.round(xstar[i] + rng.uniform(0, 1.5), 2))
+        elif pat == 'le0_lower':
+            hi = 0.0
+            xstar[i] = -abs(xstar[i])
+            lo = float(np.round(xstar[i] - rng.uniform(0, 1.5), 2))
+        elif pat == 'ge0_upper':
+            lo = 0.0
+            xstar[i] = abs(xstar[i])
             hi = float(np.round(xstar[i] + rng.uniform(0, 1.5), 2))
         elif pat == 'fixed0':
             lo = hi = 0.0
